@@ -293,6 +293,10 @@ let handle (line : string) : string =
     Printf.sprintf "ok %d %s" (int_of_nat i) (hex_of_bytes text)
   | [ "detailpkg"; h ] -> "ok " ^ hex_of_bytes (detail_package (bytes_of_hex h))
   | [ "compile"; h ] -> compile_of (bytes_of_hex h)
+  | [ "infragment"; h ] ->
+    (match file_in_fragment (bytes_of_hex h) with
+     | Some (k, n) -> Printf.sprintf "ok %d/%d" (int_of_nat k) (int_of_nat n)
+     | None -> "none")
   | [ "nuke"; h ] -> "ok " ^ hex_of_bytes (nuke (bytes_of_hex h))
   | [ "unquote"; h ] -> (match go_unquote (bytes_of_hex h) with None -> "err" | Some b -> "ok " ^ hex_of_bytes b)
   | [ "tokens"; h ] -> tokens_of (bytes_of_hex h) 100000
